@@ -176,7 +176,7 @@ impl Property for C01 {
     }
 
     fn rule(&self) -> String {
-        format!("cases: (sole_edge, exhaustive) {} edge kinds x {} fresh objects: an object is made reachable through exactly one kind of edge (map key/value, nested vec/tuple element, field, local class and its method table, superclass link, static method, closed and open captured variables, bound method receiver/function, each iterator's iterable, MapIter/FilterIter fields, stack of a suspended fiber, caller chain, yielded value, pending return value in a finally, thrown value in flight, error objects, argument temporaries, nested literals, interpolation, split/items/keys/slices results, module attribute, class under construction, range cache), garbage is churned, then the object is used and printed; (mixed, fibers, classes, scopes, iteration, maps, alloc_loops) generated programs of every profile. Each case runs three times under hook control in the checked build: never collect; collect at every allocation with swept objects quarantined; collect at a random subset of allocation points (64-bit cyclic schedule taken from the case) with quarantine. Oracle: zero dereferences of a swept object (events recorded by the three gc_box accessors, during marking or by the mutator) and identical printed values, outcome, error kind and messages across the three runs. Non-trivial: the collect-always run swept at least one object and printed something; distinct by program text.", EDGES.len(), OBJECTS.len())
+        format!("cases: (sole_edge, exhaustive) {} edge kinds x {} fresh objects: an object is made reachable through exactly one kind of edge (map key/value, nested vec/tuple element, field, local class and its method table, superclass link, static method, closed and open captured variables, bound method receiver/function, each iterator's iterable, MapIter/FilterIter fields, stack of a suspended fiber, caller chain, yielded value, pending return value in a finally, thrown value in flight, error objects, argument temporaries, nested literals, interpolation, split/items/keys/slices results, module attribute, class under construction, range cache), garbage is churned, then the object is used and printed; (mixed, fibers, classes, scopes, iteration, maps, alloc_loops) generated programs of every profile. Each case runs four times under hook control in the checked build: never collect; collect at every allocation with swept objects quarantined; collect at a random subset of allocation points (64-bit cyclic schedule taken from the case) with quarantine; and, when those were clean, collect at every allocation with swept memory really freed, so that addresses are reused. Oracle: zero dereferences of a swept object (events recorded by the three gc_box accessors, during marking or by the mutator) and identical printed values, outcome, error kind and messages across the four runs. Non-trivial: the collect-always run swept at least one object and printed something; distinct by program text.", EDGES.len(), OBJECTS.len())
     }
 
     fn assumptions(&self) -> Vec<String> {
@@ -255,6 +255,24 @@ impl Property for C01 {
             return Verdict::Fail {
                 sig: format!("panic:{}", crate::props::c03::sig_of_panic(p)),
                 detail: format!("never-collect run panicked: {}\n{}", p, src),
+            };
+        }
+        // fourth run, only after the quarantined runs were clean: collect at every allocation and
+        // really free what is swept, so that the allocator hands the same addresses out again. A
+        // table keyed by the address of an object that has died (a cache, a memo) then finds a
+        // stranger; with quarantine no address is ever reused and such an entry can never hit.
+        let freeing = yrun::run_source(&src, &RunCfg { gc: GcCfg::Default, quarantine: false, ..base.clone() });
+        if let End::Panic(p) = &freeing.end {
+            return Verdict::Fail {
+                sig: format!("panic:{}", crate::props::c03::sig_of_panic(p)),
+                detail: format!("collect-always run with swept memory really freed panicked: {}\n{}\n{}", p, name, src),
+            };
+        }
+        let kf = outcome_key(&freeing);
+        if kf != k0 {
+            return Verdict::Fail {
+                sig: "output-depends-on-address-reuse".into(),
+                detail: format!("never-collect run: {:?}\ncollect-always run with swept memory really freed (addresses reused): {:?}\n{}\n{}", k0, kf, name, src),
             };
         }
         ctx.label_n("collections", always.collections as u64 + some.collections as u64);
